@@ -838,8 +838,8 @@ func (w *driveWorld) mutateAndVerify() {
 	}
 	pick := append([]int{}, lv...)
 	w.rng.Shuffle(len(pick), func(a, b int) { pick[a], pick[b] = pick[b], pick[a] })
-	if len(pick) > 1+w.rng.Intn(4) {
-		pick = pick[:1+w.rng.Intn(4)]
+	if k := 1 + w.rng.Intn(4); len(pick) > k {
+		pick = pick[:k]
 	}
 	hs0 := w.hashes(pick)
 	pr, err := w.insts[0].P.Prove(hs0)
